@@ -177,8 +177,10 @@ def cases(tier, seed):
                     # one mixed where there is one); thorough: the full product
                     if q and iv > 0 and md["id"] not in _rep_meshes(dim, sim):
                         continue
-                    for st in states:
+                    for st in states + ([3] if sim in ("Elastic", "Thermal", "PhaseField", "WeakForms") else []):
                         if q and st > 0 and iv > 0:
+                            continue
+                        if st == 3 and im > 1:
                             continue
                         out.append({"kind": "results", "sim": sim, "variant": var, "dim": dim, "mesh": md, "state": st})
     for dim in (1, 2, 3):
@@ -430,6 +432,10 @@ def kinematic_table(table, names_vec, U, dof_names, prefix, flat_name, norm_name
 def state_vectors(case, n: int, amp: float, tag=""):
     gens = [rng("c16state", case["sim"], case["mesh"]["id"], tag, i).normal(size=n) * amp for i in range(3)]
     s = case["state"]
+    if s == 3 and tag != "d":
+        # state 3: the first state at a tiny amplitude (a micrometre-scale body in SI units: |u| ~ 1e-9); every statement of the property
+        # is homogeneous in the state, nothing may depend on its absolute magnitude
+        return gens[0] * 1e-8, gens[1] * 1e-8, gens[2] * 1e-8
     return gens[s % 3], gens[(s + 1) % 3], gens[(s + 2) % 3]
 
 
